@@ -11,7 +11,8 @@
 (*                  write_address_relocation  libwild/src/elf_writer.rs    *)
 (*     ResConsume   process_resolution (and process_got_tls_ helpers)  *)
 (*                                                                         *)
-(* Parts: got, plt_got, rela_plt, rela_general, rela_relative, relr        *)
+(* Parts: got, plt_got, rela_plt, rela_general, rela_relative, relr,       *)
+(* and eh_frame / eh_frame_hdr (one FDE, see the last section)             *)
 (* (counted in entries).  Property: for every case the two sides agree per *)
 (* part, so insufficient_allocation / excessive_allocation are unreachable *)
 (* (validate_empty).  The site-level case space is Reloc's product extended *)
@@ -158,4 +159,24 @@ ReachableFlags(f, o) ==
     /\ (f.tlsdesc /\ o \in {"static", "staticpie"}) => FALSE   \* rejected with a diagnostic
 
 ResAgree(f, o, relr) == ResAlloc(f, o, relr) = ResConsume(f, o, relr)
+
+(* ------------------------------------------------------------------ .eh_frame / .eh_frame_hdr *)
+(* One FDE of an input .eh_frame whose pc-begin designates input section T.
+   loaded: T is part of the output (not garbage collected / discarded): it has an address.
+   empty:  T has sh_size = 0 (gcc: a function whose body is __builtin_unreachable(); assembly:
+           .cfi_startproc / .cfi_endproc around nothing).
+   layout side  ObjectLayoutState::load_section calls Elf::non_empty_section_loaded, which reserves
+                the FDE's bytes in .eh_frame and its .eh_frame_hdr entry, only `if section.size > 0`;
+   writer side  write_eh_frame_relocations keeps the FDE iff T has an address AND T.sh_size != 0.
+   EhRule = "code" is that pair; "ignore-empty" is the writer without the size test (a loaded but
+   empty section still has an address): it needs space nobody reserved.  Kept as a variant TLC must
+   reject. *)
+CONSTANT EhRule
+EhParts == {"eh_frame", "eh_frame_hdr"}
+EhAlloc(loaded, empty, hdr) ==
+    [p \in EhParts |-> IF loaded /\ ~empty /\ (p = "eh_frame" \/ hdr) THEN 1 ELSE 0]
+EhKeep(loaded, empty) == IF EhRule = "code" THEN loaded /\ ~empty ELSE loaded
+EhConsume(loaded, empty, hdr) ==
+    [p \in EhParts |-> IF EhKeep(loaded, empty) /\ (p = "eh_frame" \/ hdr) THEN 1 ELSE 0]
+EhAgree(loaded, empty, hdr) == EhAlloc(loaded, empty, hdr) = EhConsume(loaded, empty, hdr)
 =============================================================================
